@@ -955,6 +955,7 @@ func init() {
 	}
 	registerEnumModels()
 	registerRTypeModels()
+	registerBytesBufferModel()
 }
 
 func connCall(name string) invokeFn {
